@@ -1306,10 +1306,9 @@ Stylesheet::findTemplate(
 
                             if(XPath::eMatchScoreNone != score)
                             {
-                                const double priorityVal = rule->getPriority();
-                                const double priorityOfRule 
-                                              = (matchScoreNoneValue != priorityVal) 
-                                              ? priorityVal : XPath::getMatchScoreValue(score);
+                                // the priority the pattern tables are ordered by, so that
+                                // reporting conflicts never changes the choice
+                                const double priorityOfRule = matchPat->getPriorityOrDefault();
 
                                 matchPatPriority = priorityOfRule;
                                 const double priorityOfBestMatched =
